@@ -405,6 +405,13 @@ impl Sched {
                 drop(g);
                 std::panic::resume_unwind(Box::new(AbortExecution));
             }
+            if g.state[t].is_lost() {
+                // the watchdog wrote us off while we were still waking up: rejoin the pool
+                g.state[t] = TState::Runnable;
+                if g.current.is_none() {
+                    g.current = Some(t);
+                }
+            }
             if g.current == Some(t) {
                 return g;
             }
@@ -531,7 +538,15 @@ impl Sched {
     }
 
     fn task_start(&self, t: usize) {
-        let g = self.lock();
+        let mut g = self.lock();
+        if g.state[t].is_lost() {
+            // the watchdog gave up on us before our OS thread even got to run (an overloaded
+            // machine): rejoin the pool like any other lost task that surfaces
+            g.state[t] = TState::Runnable;
+            if g.current.is_none() {
+                g.current = Some(t);
+            }
+        }
         let g = self.wait_for_baton(g, t);
         drop(g);
     }
@@ -579,8 +594,14 @@ pub struct ExecResult<R> {
 
 /// How long a task may go without reaching a scheduling point before it is presumed blocked
 /// on a primitive the simulator does not own.
-const LOST_AFTER: Duration = Duration::from_millis(1000);
-const GIVE_UP_AFTER: Duration = Duration::from_millis(6000);
+const LOST_AFTER: Duration = Duration::from_millis(5000);
+const GIVE_UP_AFTER: Duration = Duration::from_millis(60000);
+
+/// LOST_AFTER, overridable for stress-testing the watchdog itself (LIQUID_SIM_LOST_MS).
+fn lost_after() -> Duration {
+    static V: std::sync::OnceLock<Duration> = std::sync::OnceLock::new();
+    *V.get_or_init(|| std::env::var("LIQUID_SIM_LOST_MS").ok().and_then(|s| s.parse::<u64>().ok()).map(Duration::from_millis).unwrap_or(LOST_AFTER))
+}
 
 /// Run `tasks` as one deterministic execution.
 pub fn run_execution<R: Send + 'static>(
@@ -647,7 +668,7 @@ pub fn run_execution<R: Send + 'static>(
             continue;
         }
         let idle = last_change.elapsed();
-        if idle > LOST_AFTER {
+        if idle > lost_after() {
             if let Some(cur) = g.current {
                 // the baton holder has not reached a scheduling point: presume it blocked
                 g.state[cur] = TState::Lost;
